@@ -1,10 +1,58 @@
-"""C13 tie, second part: the validity mask of _make_wfs_table (which spikes have a full window inside the recording), element-wise."""
+"""C13 tie, second part (see harness/ties.py for the item format).
+
+_make_wfs_table : the validity mask (element-wise), the number of spikes drawn per unit, the padding value of the index table
+extract_wfs_cbin: the chunk bounds as the sequence of array operations that builds them (np.arange / + chunksize / [-1] = ns),
+                  the bounds handed to np.searchsorted and to each job, the template slice end
+make_channel_index: the within-radius comparison (element-wise), the default pad value, the row-assignment loop
+"""
+_WE = 'ibldsp/waveform_extraction.py'
+
+# extract_wfs_cbin as the sequence of the statements that decide WHICH samples / table rows go to WHICH job
+_CBIN_EVENTS = [
+    [r'^s0_arr = np\.arange\((.*), (.*), (.*)\)$', 'arange', [r'\1', r'\2', r'\3'], 'stmt'],
+    [r'^s1_arr = s0_arr \+ (.*)$', 'ends', [r'\1'], 'stmt'],
+    [r'^s1_arr\[-1\] = (.*)$', 'setlast', [r'\1'], 'stmt'],
+    # slices = [slice(*np.searchsorted(wf_flat['sample'], [lo, hi]).astype(int)) for i in range(n)]
+    [r"^slices = \[slice\(\*np\.searchsorted\(wf_flat\['sample'\], \[(.*), (.*)\]\)(?:\.astype\(int\))?\) for i in range\((.*)\)\]$",
+     'slices', [r'\1', r'\2', r'\3'], 'stmt'],
+    # Parallel(...)(delayed(write_wfs_chunk)(i, bin_file, wfs, h, labels, neighbors, wf_flat.iloc[slices[i]], (lo, hi), cs, off, len, ...) for i in range(n))
+    [r"^_ = Parallel\(n_jobs=n_jobs\)\(\(delayed\(write_wfs_chunk\)\(i, bin_file, wfs, h, channel_labels, channel_neighbors, "
+     r"wf_flat\.iloc\[slices\[i\]\], \((.*), (.*)\), (.*), (.*), (.*), reader_kwargs, preprocess_steps\) for i in range\((.*)\)\)\)$",
+     'jobs', [r'\1', r'\2', r'\3', r'\4', r'\5', r'\6'], 'stmt'],
+]
+
 SPEC = {
     'items': [
-        {'name': 'wfs_allowed', 'module': 'ibldsp/waveform_extraction.py', 'function': '_make_wfs_table', 'kind': 'expr',
+        {'name': 'wfs_allowed', 'module': _WE, 'function': '_make_wfs_table', 'kind': 'expr',
          'target': 'allowed_idx', 'predicate': True, 'value': 'Bool', 'elementwise': True,
          'params': ['spike_samples', 'trough_offset', 'sr_ns', 'spike_length_samples']},
+        {'name': 'wfs_count', 'module': _WE, 'function': '_make_wfs_table', 'kind': 'subexpr',
+         'pattern': r'min\(max_wf, nspikes\)', 'params': ['max_wf', 'nspikes']},
+        {'name': 'wfs_pad', 'module': _WE, 'function': '_make_wfs_table', 'kind': 'expr', 'target': 'unit_wf_idx', 'occurrence': 0,
+         'opaque': {r'np\.zeros\(\(nu, max_wf\), (int|np\.int64)\)': 'zeros'}, 'params': ['zeros']},
+        {'name': 'cbin_chunks', 'module': _WE, 'function': 'extract_wfs_cbin', 'kind': 'events', 'until': r'^templates_fn = ',
+         'free': ['s0_arr', 's1_arr', 'i'],
+         'assume': {r"'car' in preprocess_steps and 'kfilt' in preprocess_steps": False, 'h is None': False, r'sr\.is_mtscomp': False},
+         'events': _CBIN_EVENTS,
+         'params': ['sr_ns', 'chunksize_samples', 'trough_offset', 'spike_length_samples', 's0_arr_i', 's1_arr_i', 's0_arr_shape_0']},
+        {'name': 'cbin_template_stop', 'module': _WE, 'function': 'extract_wfs_cbin', 'kind': 'subexpr',
+         'pattern': r'rec\.last_index \+ 1', 'params': ['rec_last_index']},
+        {'name': 'chidx_within', 'module': 'ibldsp/utils.py', 'function': 'make_channel_index', 'kind': 'expr', 'target': 'neighbors',
+         'predicate': True, 'value': 'Bool', 'elementwise': True,
+         'opaque': {r'scipy\.spatial\.distance\.squareform\(scipy\.spatial\.distance\.pdist\(geom\)\)': 'dist'},
+         'params': ['dist', 'radius']},
+        {'name': 'chidx_pad', 'module': 'ibldsp/utils.py', 'function': 'make_channel_index', 'kind': 'expr', 'target': 'pad_val',
+         'params': ['geom_shape_0']},
+        {'name': 'chidx_rows', 'module': 'ibldsp/utils.py', 'function': 'make_channel_index', 'kind': 'events',
+         'assume': {'pad_val is None': True},
+         'events': [[r'^channel_idx\[c, :(.*)\] = ch_idx$', 'row', ['c', r'\1'], 'stmt']],
+         'params': ['geom_shape_0', 'ch_idx_shape_0']},
     ],
-    'theorems': ['IblVerif.Tie.C13.allowed_eq'],
-    'covers': '_make_wfs_table: the mask of spikes whose extraction window lies inside the recording',
+    'theorems': ['IblVerif.Tie.C13.allowed_eq', 'IblVerif.Tie.C13.count_eq', 'IblVerif.Tie.C13.pad_eq',
+                 'IblVerif.Tie.C13.chunk_bounds_eq', 'IblVerif.Tie.C13.chunk_events_eq', 'IblVerif.Tie.C13.template_stop_eq',
+                 'IblVerif.Tie.C13.within_eq', 'IblVerif.Tie.C13.chidx_pad_eq', 'IblVerif.Tie.C13.chidx_rows_eq'],
+    'covers': '_make_wfs_table: the mask of spikes whose extraction window lies inside the recording, min(max_wf, nspikes), the padding '
+              'value -1 of the index table; extract_wfs_cbin: the chunk bounds (np.arange(0, ns, cs), + cs, last end = ns) under their NumPy '
+              'meaning = chunkStarts / chunkEnd of the model, the same bounds handed to np.searchsorted and to job i, the end of the '
+              'template slice; make_channel_index: the comparison <= radius, the default pad value, one row assignment per channel in order',
 }
